@@ -71,27 +71,6 @@ Proof.
   rewrite !app_assoc. apply Permutation_app_tail. apply Permutation_app_comm.
 Qed.
 
-Lemma flat_map_map {A B C} (f : A -> B) (g : B -> list C) (l : list A) :
-  flat_map g (map f l) = flat_map (fun x => g (f x)) l.
-Proof. induction l as [|a l IH]; simpl; auto. now rewrite IH. Qed.
-
-Lemma map_flat_map {A B C} (f : A -> list B) (g : B -> C) (l : list A) :
-  map g (flat_map f l) = flat_map (fun x => map g (f x)) l.
-Proof. induction l as [|a l IH]; simpl; auto. now rewrite map_app, IH. Qed.
-
-(* ---------- insertion sort is a permutation ---------- *)
-Lemma insert_perm {A} (leb : A -> A -> bool) x l : Permutation (insert leb x l) (x :: l).
-Proof.
-  induction l as [|y l IH]; simpl; auto.
-  destruct (leb x y); auto.
-  eapply perm_trans; [apply perm_skip, IH|]. apply perm_swap.
-Qed.
-Lemma isort_perm {A} (leb : A -> A -> bool) l : Permutation (isort leb l) l.
-Proof.
-  induction l as [|x l IH]; simpl; auto.
-  eapply perm_trans; [apply insert_perm|]. now apply perm_skip.
-Qed.
-
 (* ====================================================================== *)
 (* 1. decimal printing is injective, the renaming loop finds an unused name *)
 (* ====================================================================== *)
@@ -178,6 +157,12 @@ Qed.
 Lemma unused_loop_fresh name sep reserved :
   ~ In (unused_loop (S (List.length reserved)) 0 name sep reserved) reserved.
 Proof. apply unused_loop_fresh_gen. lia. Qed.
+
+Example unused_loop_example :
+  let reserved := [s "a"; s "a_2"; s "a_1"] in
+  unused_loop (S (List.length reserved)) 0 (s "a") [us] reserved = s "a_3"
+  /\ create_unused_name [s "text"; s "k"] (s "k") TAttr = (s "k_attr", [s "text"; s "k"; s "k_attr"]).
+Proof. split; vm_compute; reflexivity. Qed.
 
 (* the result is always one of the candidates (the shape `name` or `name ++ sep ++ decimal`) *)
 Lemma unused_loop_is_cand fuel : forall i name sep reserved,
@@ -269,13 +254,16 @@ Definition id_keys (e : element) : list (str * idty) :=
 Lemma id_new_spec e : map fst (id_new e) = id_keys e /\ NoDup (map snd (id_new e)).
 Proof.
   rewrite id_new_eq. cbv zeta.
-  destruct (id_fold_spec (fun c => ename (snd c)) (ename e) TChild (echildren e) ([], []))
-    as (A1 & A2 & A3); [reflexivity|constructor|].
-  destruct (id_fold_spec snd (ename e) TAttr (eattrs e) _ A1 A2) as (B1 & B2 & B3).
-  set (st2 := id_fold snd (ename e) TAttr (eattrs e) _) in *.
+  pose proof (id_fold_spec (fun c : nec * element => ename (snd c)) (ename e) TChild (echildren e) ([], []))
+    as HA. cbv zeta in HA.
+  set (st1 := id_fold (fun c : nec * element => ename (snd c)) (ename e) TChild (echildren e) ([], [])) in *.
+  destruct HA as (A1 & A2 & A3); [reflexivity|constructor|].
+  pose proof (id_fold_spec (@snd nec str) (ename e) TAttr (eattrs e) st1 A1 A2) as HB. cbv zeta in HB.
+  set (st2 := id_fold snd (ename e) TAttr (eattrs e) st1) in *.
+  destruct HB as (B1 & B2 & B3).
   pose proof (create_unused_name_notin (snd st2) (s "text") TText) as Hn.
   rewrite !map_app. cbn [map fst snd]. split.
-  - rewrite B3. Set Printing All. Show. rewrite A3. cbn [fst map app]. unfold id_keys, cname. now rewrite <- app_assoc.
+  - unfold idmap in *. rewrite B3, A3. cbn [fst map app]. unfold id_keys, cname. now rewrite <- app_assoc.
   - rewrite B1. now apply nodup_snoc.
 Qed.
 
